@@ -150,7 +150,7 @@ def run(ctx, report):
                             vals.append(':'.join(rng.choice(['', 'A', '12', '20040101', 'AD', 'HC']) for _ in range(k)))
                         else:
                             codes = [x for x in c.valid_codes if x]
-                            vals.append(rng.choice(['', 'X', '123', '20040230', '20040101', '20040101-20040131', '1200', 'abc ', '-1.5',
+                            vals.append(rng.choice(['', 'X', '123', '0:5', 'A:B:C', ':', '20040230', '20040101', '20040101-20040131', '1200', 'abc ', '-1.5',
                                                     (rng.choice(codes) if codes else 'ZZ'), 'A' * 40, 'D8', 'RD8', 'TM']))
                     r0 = rng.random()
                     if r0 < 0.3:
